@@ -248,7 +248,17 @@ func init() {
 		Technique: "deterministic simulation of classic-LZMA writer call histories incl. the explicit-size contract (surplus / deficit), header re-parsed independently, library reader over the recorded sink history as oracle",
 		Rule: "case = (lzma.WriterConfig over all 225 property codes, DictCap/BufSize corners, both matchers, {marker, size, size+marker}, Size=len incl. 0 | surplus | deficit; payload; Write partition; sink with/without io.ByteWriter); " +
 			"non-trivial = non-empty payload or an explicit-size mode; distinct = distinct scenario digests",
-		Gen:    func(r *sim.Rng, tier string, idx int) *LZCase { return genLZWCase(r, tier, false, true) },
+		Gen: func(r *sim.Rng, tier string, idx int) *LZCase {
+			c := genLZWCase(r, tier, false, true)
+			if isVeryFarCase(tier, idx) {
+				pl, dc := veryFarPayload(r)
+				c.SizeMode = ""
+				c.W.LZ = &LZCfg{NoProps: true, DictCap: dc, BufSize: 4096, EOSMarker: true}
+				c.W.Payload, c.W.RDict = pl, 0
+				c.W.Ops = []Op{{K: "w", N: pl.Len()}, {K: "c"}}
+			}
+			return c
+		},
 		Run:    func(c *LZCase, x *sim.Ctx) *sim.Violation { return runLZCase(c, x, false) },
 		Shrink: shrinkLZCase,
 		Runs: func(tier string) int {
